@@ -15,4 +15,5 @@ def run(repo, res, tier):
                        "copyreg.__newobj__, state = __dict__, dictitems = iter(dict.items()))"]
     multidict.rule_p1(repo, res)
     multidict.rule_p2(repo, res)
+    multidict.rule_p3(repo, res)
     multidict.rule_m2(repo, res)
